@@ -101,7 +101,7 @@ def make_mask(style, h, w, data_seed):
     return m
 
 
-def make_pair(io, c, h, w, style, data_seed):
+def make_pair(io, c, h, w, style, data_seed, mdim=2):
     """-> (image, mask, mask_array). image channel 0 (tensor) / channels R,G (PIL) carry the coordinate code"""
     grid = code_grid(h, w)
     m = make_mask(style, h, w, data_seed)
@@ -109,7 +109,8 @@ def make_pair(io, c, h, w, style, data_seed):
     if io == "tensor":
         x = torch.from_numpy(g.random((c, h, w), dtype=np.float32))
         x[0] = torch.from_numpy(grid.astype(np.float32))
-        return x, torch.from_numpy(m.copy()), m
+        mt = torch.from_numpy(m.copy())
+        return x, (mt.unsqueeze(0) if mdim == 3 else mt), m   # mdim 3: map with a leading channel dimension (1, H, W)
     arr = np.zeros((h, w, 3), dtype=np.uint8)
     arr[:, :, 0] = (grid // K).astype(np.uint8)
     arr[:, :, 1] = (grid % K).astype(np.uint8)
